@@ -248,7 +248,7 @@ def observe(obj, V, facts, Vinv):
     chk("diagonal", lambda: obj.diagonal, np.diag(V) if n == m else np.diagonal(V))
     if n == m:
         det = np.linalg.det(V)
-        if hasattr(obj, "log_abs_det") and abs(det) > 1e-12:
+        if hasattr(type(obj), "log_abs_det") and abs(det) > 1e-12:
             chk("log_abs_det", lambda: np.exp(obj.log_abs_det), abs(det))
     if facts["inv"]:
         if not isinstance(obj, M.InvertibleMatrix):
@@ -494,9 +494,9 @@ def check_value_semantics():
         for opname, fn in (("matvec", lambda: obj @ v), ("matmat", lambda: obj @ Bm), ("rmatvec", lambda: w @ obj),
                            ("scale", lambda: 3.0 * obj), ("neg", lambda: -obj), ("div", lambda: obj / 2.0),
                            ("T", lambda: obj.T), ("T.matvec", lambda: obj.T @ w), ("array", lambda: obj.array),
-                           ("inv", lambda: obj.inv @ w if hasattr(obj, "inv") else None),
-                           ("sqrt", lambda: obj.sqrt @ v if hasattr(obj, "sqrt") else None),
-                           ("2*inv", lambda: (2.0 * obj).inv.array if hasattr(obj, "inv") else None),
+                           ("inv", lambda: obj.inv @ w if hasattr(type(obj), "inv") else None),
+                           ("sqrt", lambda: obj.sqrt @ v if hasattr(type(obj), "sqrt") else None),
+                           ("2*inv", lambda: (2.0 * obj).inv.array if hasattr(type(obj), "inv") else None),
                            ("prod", lambda: (obj @ obj.T).array)):
             try:
                 fn()
